@@ -102,7 +102,7 @@ def execute(binp, d, tag, cases=None, seed=None, n=None):
 
 def describe(t):
     return "Pipe%s family %s argument %s%s" % ("" if t["n"] == 2 else t["n"], t["fam"], json.dumps(t["a"]),
-                                               " (second invocation)" if t.get("second") else "")
+                                               (" (second invocation)" if t.get("second") else "") + (" (one of %d invocations of the same composed function running at once)" % t["conc"] if t.get("conc") else ""))
 
 
 def judge(run, traces, d, tag):
